@@ -325,6 +325,9 @@ def _judge(case, ctx):
         rows = [tuple(r) for r in table[1:]]
         ctx.seen('cells-of-a-str-or-date-subclass')
     field, args, comp, missing = case['field'], case['args'], case['complement'], case['missing']
+    if int(util.fp(case)[6:8], 16) % 7 == 0 and field is not None:
+        field = util.names_as_subtypes(field)       # the field name(s) as instances of a str subclass
+        ctx.seen('field-names-given-as-str-subclass-instances')
     LIVE[0] = table if (type(table) is list and case.get('rows_as') != 'records') else None
     out = []
     kw = {}
